@@ -19,6 +19,7 @@ const ruleC01 = "model-based state machine: histories of collection/insert/save/
 func c01Profile(wide bool) *sm.Profile {
 	p := &sm.Profile{
 		Name:        "c01",
+		FaultRate:   12,
 		Colls:       []string{"A", "B", "ab"},
 		IndexFields: []string{"x", "y", "n.a", "s", "t", "u", "_id", "xy", "n"},
 		Doc:         gen.DocCfg{Val: gen.ValCfg{MaxDepth: 2, NonUTF8: true, LongStr: true, Wide: wide}, PAbsent: 4},
